@@ -3,6 +3,11 @@
 Monitor (StructureLedger): per-(label, CAS) content, T, P and type of the real stream are snapshotted around every
 representation change (phases=, phase=, reduce_phases, as_stream, vle/lle/sle accessors), phase-view writes and
 get_data/set_data, and compared with the DenseFlows relabelling model.
+
+A second case stream (gen_case2 / run_case2, cases marked 'v': 2) runs after the first with an extended vocabulary: other construction forms of the start state,
+argument forms of phases= / multi-character phase=, empty-stream boundaries, accessors on single-phase streams outside the solver pair, views held across conversions,
+the other write/read paths of views and parent, iteration, T/P through thermal_condition / copy_thermal_condition, from_data, set_data onto another object and the
+temporary() / temporary_phase() context managers. The first stream (gen_case) is left exactly as it was.
 """
 import numpy as np
 import thermosteam as tmo
@@ -12,7 +17,13 @@ from vt.common import thermo_of, phase_ledger, stream_invariant
 PID = 'C12'
 RULE = ('histories of 5-30 steps on one stream (5 chemicals) starting from a random distribution over any subset of s,l,g,S,L: phases= to any set containing every non-empty phase up to case, '
         'phase= / as_stream when one case-group is non-empty, reduce_phases, vle/lle/sle accessors (single-phase: phase inside the pair up to case), writes through phase views and through the parent, '
-        'T/P changes on either side, get_data ... set_data. non-trivial = >=2 non-empty phases at some point and >=3 effective steps; distinct = hash of the history')
+        'T/P changes on either side, get_data ... set_data. non-trivial = >=2 non-empty phases at some point and >=3 effective steps; distinct = hash of the history. '
+        'Second stream of cases (marked v=2, run after the first): start built directly / by MultiStream.from_streams / by Stream(...).phases= / as a one-phase MultiStream; '
+        'phases= given as tuple, string, list, list with duplicates, iterator, set (empty target set for an empty stream), phase = multi-character string, phase= with any label and reduce_phases / as_stream on empty streams, '
+        'accessors also on single-phase streams whose phase lies outside the solver pair (UndefinedPhase counted as refusal), writes through freshly fetched views, views HELD across conversions '
+        '(only while the stream stays a MultiStream and keeps the label) and the parent by imol item/pair/row, imass, set_flow, mol array item/slice, empty, scale, copy_like / mix_from of a fresh stream, read back through imol / imass / get_flow / mol, '
+        'judged on the per-(phase, CAS) ledger; for v in s / len(s) / Stream[label]; T/P through attributes, thermal_condition and copy_thermal_condition on either side, thermal-condition identity after every conversion; '
+        'Stream.from_data / MultiStream.from_data(get_data()), set_data onto another stream object, with s.temporary(flow, T, P) incl. inner conversions and a raising body, with s.temporary_phase(label)')
 MIN_NONTRIVIAL = {'quick': 300, 'thorough': 10000}
 ASSUMPTIONS = ['target phase sets contain every non-empty phase up to case (the quantifier of C12)', 'equilibrium solver objects are only requested, never called']
 IDS = ('Water', 'Ethanol', 'Octane', 'CO2', 'Glycerol')
@@ -20,7 +31,12 @@ PH = 'slgSL'
 
 
 def required(tier):
-    return ['phases=', 'phase=', 'reduce_phases', 'as_stream', 'accessor', 'view-write', 'parent-write', 'view-TP', 'restore', 'view-after-phase-change']
+    return ['phases=', 'phase=', 'reduce_phases', 'as_stream', 'accessor', 'view-write', 'parent-write', 'view-TP', 'restore', 'view-after-phase-change',
+            'v2:start/from_streams', 'v2:start/via-phases', 'v2:start/M1', 'v2:accessor-outside-pair', 'v2:write/view', 'v2:write/parent', 'v2:write/held',
+            'v2:write-kind/imass', 'v2:write-kind/set_flow-kg', 'v2:write-kind/mol-item', 'v2:write-kind/mol-row', 'v2:write-kind/empty', 'v2:write-kind/scale', 'v2:write-kind/copy_like', 'v2:write-kind/mix_from',
+            'v2:held-probe', 'v2:held-across/phases=', 'v2:held-across/accessor', 'v2:held-across/restore', 'v2:iter', 'v2:getitem-single', 'v2:from_data', 'v2:restore-other', 'v2:temporary', 'v2:temporary/raise',
+            'v2:temporary/conv', 'v2:temp-phase', 'v2:phases-form/str', 'v2:phases-form/dup', 'v2:phases-form/iter', 'v2:phase-multichar/multi', 'v2:empty/phase=any-label',
+            'v2:empty/reduce', 'v2:empty/as_stream', 'v2:empty/target-set-empty', 'v2:thermal-identity', 'v2:TP/view-ctc', 'v2:TP/parent-ctc', 'v2:TP/view-tc', 'v2:TP/held-attr']
 
 
 def swap(p):
@@ -64,6 +80,7 @@ def gen_case(rng):
 
 
 def run_case(case, rec):
+    if case.get('v') == 2: return run_case2(case, rec)
     rec.begin_case(case)
     th = thermo_of(IDS)
     d = case['start']
@@ -197,6 +214,540 @@ def run_case(case, rec):
     if multi_seen and eff >= 3: rec.mark_nontrivial(case_hash(case))
 
 
+# ---------------------------------------------------------------------------------------------------------------------
+# second case stream (cases marked 'v': 2): extended vocabulary, same ledger model
+
+FORMS = ('tuple', 'str', 'list', 'dup', 'iter', 'set')
+VIEW_KINDS = ('imol', 'imol', 'imass', 'set_flow-kmol', 'set_flow-kg', 'mol-item', 'mol-row', 'imol-pair', 'empty', 'scale', 'copy_like', 'mix_from')
+PARENT_KINDS = ('imol', 'imol', 'imass', 'set_flow-kmol', 'set_flow-kg', 'imol-row', 'imol-pair', 'empty', 'scale')
+READS = ('imol', 'imass', 'get_flow', 'mol')
+TP_HOWS = ('view-attr', 'parent-attr', 'view-ctc', 'parent-ctc', 'view-tc', 'parent-tc', 'held-attr', 'held-ctc')
+STEPS2 = [('phases', 6), ('phase', 2), ('phase-multi', 1), ('reduce', 2), ('as_stream', 1), ('accessor', 4), ('write', 9), ('hold', 2), ('held-probe', 3), ('TP', 2), ('save', 2), ('restore', 2),
+          ('restore-other', 1), ('from_data', 1), ('temporary', 2), ('temp-phase', 1), ('empty-row', 1), ('empty-all', 1), ('getitem-single', 1)]
+
+
+class _Probe(Exception):
+    pass
+
+
+def _val(rng):
+    return round(10 ** rng.uniform(-2, 3), 4) if rng.random() < 0.85 else 0.0
+
+
+def _row(rng, n, pzero=0.1):
+    if rng.random() < pzero: return [0.0] * n
+    return [0.0 if rng.random() < 0.35 else round(10 ** rng.uniform(-2, 3), 4) for _ in range(n)]
+
+
+def _fresh(rng, n):
+    return {'phase': rng.choice(PH), 'T': round(rng.uniform(290, 370), 2), 'P': rng.choice([101325., 5e4, 3e5]), 'flows': _row(rng, n)}
+
+
+def gen_case2(rng):
+    n = len(IDS)
+    phs = rng.sample(list(PH), rng.randrange(1, 5))
+    all_empty = rng.random() < 0.12
+    start = {'phases': ''.join(phs), 'T': round(rng.uniform(290, 370), 2), 'P': rng.choice([101325., 5e4, 3e5]),
+             'form': rng.choice(['direct', 'direct', 'from_streams', 'via-phases', 'M1']),
+             'flows': {p: [0.0] * n if all_empty else _row(rng, n, 0.25) for p in phs}}
+    names = [a for a, b in STEPS2]; weights = [b for a, b in STEPS2]
+    steps = []
+    for _ in range(rng.randrange(5, 31)):
+        t = rng.choices(names, weights)[0]
+        st = {'t': t, 'r': rng.random(), 'k': rng.randrange(1000)}
+        if t in ('phases', 'phase-multi'):
+            st['extra'] = rng.sample(list(PH), rng.randrange(0, 4)); st['swapcase'] = rng.random() < 0.3
+            st['order'] = rng.sample(list(PH), 5); st['form'] = rng.choice(FORMS); st['empty_ok'] = rng.random() < 0.5
+        elif t == 'phase': st['p_any'] = rng.choice(PH)
+        elif t == 'accessor': st['which'] = rng.choice(['vle', 'lle', 'sle'])
+        elif t == 'write':
+            st['side'] = rng.choice(['view', 'parent', 'held', 'held'])
+            st['kind'] = rng.choice(PARENT_KINDS if st['side'] == 'parent' else VIEW_KINDS)
+            st['v'] = _val(rng); st['v2'] = _val(rng); st['i'] = rng.randrange(n); st['j'] = rng.randrange(1, n); st['read'] = rng.choice(READS)
+            if st['kind'] in ('mol-row', 'imol-row'): st['row'] = _row(rng, n)
+            if st['kind'] == 'scale': st['f'] = rng.choice([0.5, 2.0, 3.25, 1.0, 0.0, 1e-3])
+            if st['kind'] in ('copy_like', 'mix_from'): st['fresh'] = _fresh(rng, n)
+        elif t == 'hold': st['how'] = rng.choice(['getitem', 'iter'])
+        elif t == 'TP': st['T'] = round(rng.uniform(290, 370), 2); st['P'] = rng.choice([101325., 5e4, 3e5]); st['how'] = rng.choice(TP_HOWS)
+        elif t == 'restore-other': st['other'] = dict(_fresh(rng, n), multi=rng.random() < 0.5, phases=''.join(rng.sample(list(PH), rng.randrange(1, 4))))
+        elif t == 'from_data': st['cls'] = rng.choice(['Stream', 'MultiStream']); st['src'] = rng.choice(['saved', 'current'])
+        elif t == 'temporary':
+            st['T'] = round(rng.uniform(290, 370), 2) if rng.random() < 0.6 else None; st['P'] = rng.choice([101325., 5e4, 3e5]) if rng.random() < 0.6 else None
+            st['flow'] = rng.choice([None, 'row', 'rows']); st['row'] = _row(rng, n); st['inner'] = rng.choice(['none', 'conv', 'collapse', 'empty', 'raise'])
+            st['extra'] = rng.sample(list(PH), rng.randrange(1, 4)); st['v'] = _val(rng); st['i'] = rng.randrange(n)
+        steps.append(st)
+    return {'v': 2, 'start': start, 'steps': steps}
+
+
+def build_start2(d, th, rec):
+    """the start state in one of four construction forms; returns (stream, views the construction itself hands out)"""
+    phs = d['phases']; form = d['form']; held = {}
+    def single(p):
+        x = tmo.Stream(None, phase=p, T=d['T'], P=d['P'], thermo=th)
+        for i, v in zip(IDS, d['flows'][p]):
+            if v: x.imol[i] = v
+        return x
+    if form == 'from_streams':
+        parts = [single(p) for p in phs]
+        s = tmo.MultiStream.from_streams(parts, thermo=th)
+        held = {p: x for p, x in zip(phs, parts)}
+    elif form == 'via-phases' and len(phs) > 1:
+        s = single(phs[0])
+        s.phases = tuple(phs)
+        for p in phs[1:]:
+            for i, v in zip(IDS, d['flows'][p]):
+                if v: s.imol[p, i] = v
+    elif len(phs) == 1 and form != 'M1':
+        s = single(phs)
+        form = 'direct'
+    else:
+        if len(phs) > 1 and form == 'M1': form = 'direct'
+        s = tmo.MultiStream(None, phases=tuple(phs), T=d['T'], P=d['P'], thermo=th)
+        for p, row in d['flows'].items():
+            for i, v in zip(IDS, row):
+                if v: s.imol[p, i] = v
+    rec.hit('v2:start/' + form)
+    return s, held
+
+
+def as_form(target, order, form):
+    lst = [p for p in order if p in target]
+    if form == 'str': return ''.join(lst)
+    if form == 'list': return lst
+    if form == 'dup': return lst + lst[:2]
+    if form == 'iter': return iter(lst)
+    if form == 'set': return set(lst)
+    return tuple(lst)
+
+
+def view_row(v, cas):
+    return {cas[i]: x for i, x in v.imol.data.dct.items()}
+
+
+def parent_row(flows, p):
+    return {c: x for (q, c), x in flows.items() if q == p}
+
+
+def ledger_close(a, b, rel=1e-12):
+    if set(a) != set(b): return False
+    return all(abs(a[k] - b[k]) <= rel * max(abs(a[k]), abs(b[k])) for k in a)
+
+
+def probe_view(rec, s, v, p, clause, tag, idx, cas, k):
+    """v must be a live view of row p of the multi-phase stream s: same content, writes visible both ways, shared T and P. Leaves s as it was."""
+    flows = phase_ledger(s)
+    rec.check(view_row(v, cas) == parent_row(flows, p), clause, f'{tag}/same-content', f'step {k}: view {p!r} ({tag}) reads {view_row(v, cas)} but the parent row holds {parent_row(flows, p)}')
+    rec.check(v.phase == p, clause, f'{tag}/label', f'step {k}: the view of row {p!r} ({tag}) reports phase {v.phase!r}')
+    ID = IDS[idx]
+    old = s.imol[p, ID]
+    w = 7.5 if old != 7.5 else 8.5
+    v.imol[ID] = w
+    got = s.imol[p, ID]
+    rec.check(got == w, clause, f'{tag}/view-to-parent', f'step {k}: write {w} through view {p!r} ({tag}) not visible in the parent (reads {got})')
+    s.imol[p, ID] = old
+    got = v.imol[ID]
+    rec.check(got == old, clause, f'{tag}/parent-to-view', f'step {k}: parent write {old} at {p!r} not visible in the view ({tag}; reads {got})')
+    T0, P0 = s.T, s.P
+    v.T = T0 + 1.25; v.P = P0 + 250.
+    rec.check(s.T == T0 + 1.25 and s.P == P0 + 250., clause, f'{tag}/TP-view-to-parent', f'step {k}: T/P set through view {p!r} ({tag}) not seen by the parent')
+    s.T = T0; s.P = P0
+    rec.check(v.T == T0 and v.P == P0, clause, f'{tag}/TP-parent-to-view', f'step {k}: view {p!r} ({tag}) does not share T/P with the parent')
+    rec.check(v.thermal_condition is s.thermal_condition, clause, f'{tag}/thermal-condition-identity', f'step {k}: view {p!r} ({tag}) holds another thermal condition object than the parent')
+    rec.hit('v2:thermal-identity')
+
+
+def run_case2(case, rec):
+    rec.begin_case(case)
+    th = thermo_of(IDS)
+    cas = th.chemicals.CASs
+    MW = [float(x) for x in th.chemicals.MW]
+    n = len(IDS)
+    s, held = build_start2(case['start'], th, rec)
+    crossed = {p: 'from_streams' for p in held}     # view label -> last conversion it was held across
+    saved = None
+    eff = 0; multi_seen = False
+
+    def mk_fresh(d, phase=None):
+        x = tmo.Stream(None, phase=phase or d['phase'], T=d['T'], P=d['P'], thermo=th)
+        for i, v in zip(IDS, d['flows']):
+            if v: x.imol[i] = v
+        return x
+
+    def after_conversion(tag, k, st):
+        """bookkeeping for held views and the sharing oracle on the views the stream hands out now"""
+        if not isinstance(s, tmo.MultiStream):
+            held.clear(); crossed.clear(); return
+        for p in list(held):
+            if p not in s.phases: del held[p]; crossed.pop(p, None)
+            else: crossed[p] = tag
+        for p in s.phases:
+            probe_view(rec, s, s[p], p, 'view-after-conversion', tag, st['k'] % n, cas, k)
+
+    for k, st in enumerate(case['steps']):
+        t = st['t']
+        before = snap(s)
+        ne = nonempty_labels(before['flows'])
+        groups = {p.lower() for p in ne}
+        multi = isinstance(s, tmo.MultiStream)
+        zero = multi and len(s.phases) == 0
+        if len(ne) >= 2: multi_seen = True
+        clause = {'phases': 'phases=', 'phase': 'phase=', 'phase-multi': 'phase=', 'reduce': 'reduce_phases', 'temp-phase': 'temporary_phase', 'hold': 'iteration', 'getitem-single': 'iteration',
+                  'TP': 'view-TP', 'write': 'view-write', 'empty-row': 'parent-write', 'empty-all': 'parent-write', 'restore-other': 'restore', 'save': 'restore', 'from_data': 'restore'}.get(t, t)
+        try:
+            if t in ('phases', 'phase-multi'):
+                target = set(st['extra'])
+                for p in ne: target.add(swap(p) if (st['swapcase'] and swap(p) not in ne) else p)
+                if t == 'phase-multi':
+                    for p in st['order']:
+                        if len(target) >= 2: break
+                        target.add(p)
+                if len(target) == 0:
+                    if st['empty_ok']: rec.hit('v2:empty/target-set-empty')
+                    else: target = {'l'}
+                if t == 'phases':
+                    arg = as_form(target, st['order'], st['form'])
+                    rec.hit('v2:phases-form/' + st['form'])
+                    s.phases = arg
+                    tag = 'phases='; sfx = f'{st["form"]}-form/'
+                else:
+                    arg = ''.join(p for p in st['order'] if p in target)
+                    try:
+                        s.phase = arg
+                    except RuntimeError as e:
+                        if multi: raise
+                        rec.refuse('phase = multi-character string on a single-phase stream: RuntimeError (invalid phase)'); rec.hit('v2:phase-multichar/single-refused')
+                        a2 = snap(s)
+                        rec.check(a2 == before, 'phase=', 'multichar/refusal-leaves-stream', f'step {k}: refused phase={arg!r} changed the stream: {a2} was {before}')
+                        continue
+                    rec.hit('v2:phase-multichar/' + mode(multi))
+                    tag = 'phase-multichar'; sfx = 'multichar/'
+                after = snap(s)
+                labels = set(after['phases'])
+                exp = relabel(before['flows'], labels)
+                rec.check(after['flows'] == exp, clause, f'{sfx}content/{mode(multi)}-to-{min(len(target), 2)}', f'step {k}: {tag} {arg!r} from {before["phases"]}: content {after["flows"]} expected {exp}')
+                rec.check(after['T'] == before['T'] and after['P'] == before['P'], clause, f'{sfx}TP', f'step {k}: {tag} changed T/P')
+                if len(target) >= 2: rec.check(labels == target and after['cls'] == 'MultiStream', clause, f'{sfx}labels', f'step {k}: {tag} {sorted(target)} gave {after["cls"]} with labels {sorted(labels)}')
+                after_conversion(tag, k, st)
+                eff += 1
+            elif t == 'phase':
+                if len(groups) > 1: continue
+                if groups:
+                    g = next(iter(groups))
+                    p = g if st['r'] < 0.5 else g.upper() if g != 'g' else 'g'
+                else:
+                    p = st['p_any']; rec.hit('v2:empty/phase=any-label')
+                s.phase = p
+                after = snap(s)
+                exp = {}
+                for (q, c), v in before['flows'].items(): exp[(p, c)] = exp.get((p, c), 0.0) + v
+                rec.check(after['flows'] == exp and after['cls'] == 'Stream' and after['phases'] == (p,), 'phase=', f'content/{mode(multi)}{"" if groups else "-empty"}', f'step {k}: phase={p!r} from {before["phases"]}: {after} expected flows {exp}')
+                rec.check(after['T'] == before['T'] and after['P'] == before['P'], 'phase=', 'TP', f'step {k}: phase= changed T/P')
+                after_conversion('phase=', k, st)
+                eff += 1
+            elif t == 'reduce':
+                if not ne: rec.hit('v2:empty/reduce')
+                s.reduce_phases()
+                after = snap(s)
+                labels = set(after['phases'])
+                exp = relabel(before['flows'], labels)
+                ok = after['flows'] == exp and {p.lower() for p in nonempty_labels(after['flows'])} == groups
+                rec.check(ok, 'reduce_phases', f'content/{mode(multi)}{"" if ne else "-empty"}', f'step {k}: reduce_phases from {before["phases"]}: {after["flows"]} expected {exp}')
+                rec.check(after['T'] == before['T'] and after['P'] == before['P'], 'reduce_phases', 'TP', f'step {k}: reduce_phases changed T/P')
+                after_conversion('reduce_phases', k, st)
+                eff += 1
+            elif t == 'as_stream':
+                if len(groups) > 1: continue
+                if not ne: rec.hit('v2:empty/as_stream')
+                s.as_stream()
+                after = snap(s)
+                exp = relabel(before['flows'], set(after['phases']))
+                rec.check(after['flows'] == exp and after['cls'] == 'Stream', 'as_stream', f'content{"" if ne else "-empty"}', f'step {k}: as_stream from {before["phases"]}: {after} expected flows {exp}')
+                rec.check(after['T'] == before['T'] and after['P'] == before['P'], 'as_stream', 'TP', f'step {k}: as_stream changed T/P')
+                after_conversion('as_stream', k, st)
+                eff += 1
+            elif t == 'accessor':
+                which = st['which']
+                pair = {'vle': 'gl', 'lle': 'lL', 'sle': 'sl'}[which]
+                outside = not multi and s.phase.lower() not in {q.lower() for q in pair}
+                mech = mode(multi)
+                if outside: mech = f'single-{s.phase.lower()}-outside-pair'; rec.hit('v2:accessor-outside-pair')
+                try:
+                    getattr(s, which)
+                except tmo.exceptions.UndefinedPhase as e:
+                    if multi: raise
+                    rec.refuse(f'.{which} on a single-phase stream in phase {s.phase!r}: UndefinedPhase'); rec.hit('v2:accessor-refused')
+                    a2 = snap(s)
+                    rec.check(a2 == before, 'accessor', f'{which}/refusal-leaves-stream', f'step {k}: refused .{which} changed the stream: {a2} was {before}')
+                    continue
+                after = snap(s)
+                labels = set(after['phases'])
+                exp = relabel(before['flows'], labels)
+                rec.check(after['flows'] == exp, 'accessor', f'{which}/content/{mech}', f'step {k}: .{which} from {before["cls"]}{before["phases"]}: content {after["flows"]} expected {exp} (material must stay in its phase)')
+                rec.check(after['T'] == before['T'] and after['P'] == before['P'], 'accessor', f'{which}/TP', f'step {k}: .{which} changed T/P')
+                rec.check(all(p in labels or swap(p) in labels for p in pair), 'accessor', f'{which}/labels', f'step {k}: .{which} did not provide its phases: {sorted(labels)}')
+                after_conversion('accessor', k, st)
+                eff += 1
+            elif t == 'write':
+                if not multi or zero: continue
+                side = st['side']; kind = st['kind']
+                if side == 'held' and not held: side = 'view'
+                if side == 'held':
+                    labs = sorted(held); p = labs[st['k'] % len(labs)]; view = held[p]
+                    rec.hit('v2:held-across/' + crossed.get(p, 'none'))
+                else:
+                    p = s.phases[st['k'] % len(s.phases)]; view = s[p]
+                cl = {'view': 'view-write', 'parent': 'parent-write', 'held': 'held-write'}[side]
+                rec.hit('v2:write/' + side); rec.hit('v2:write-kind/' + kind)
+                i = st['i']; j = (i + st['j']) % n
+                ID = IDS[i]; v = st['v']
+                exp = dict(before['flows']); exact = True; target = None; expT = before['T']; expP = before['P']
+                def put(idx, val):
+                    if val: exp[(p, cas[idx])] = val
+                    else: exp.pop((p, cas[idx]), None)
+                def put_row(row):
+                    for idx in range(n): put(idx, row[idx])
+                on_view = side != 'parent'
+                if kind == 'imol':
+                    if on_view: view.imol[ID] = v
+                    else: s.imol[p, ID] = v
+                    put(i, v); target = v
+                elif kind == 'imass':
+                    if on_view: view.imass[ID] = v
+                    else: s.imass[p, ID] = v
+                    put(i, v / MW[i]); target = v / MW[i]; exact = False
+                elif kind == 'set_flow-kmol':
+                    if on_view: view.set_flow(v, 'kmol/hr', ID)
+                    else: s.set_flow(v, 'kmol/hr', (p, ID))
+                    put(i, v); target = v; exact = False
+                elif kind == 'set_flow-kg':
+                    if on_view: view.set_flow(v, 'kg/hr', ID)
+                    else: s.set_flow(v, 'kg/hr', (p, ID))
+                    put(i, v / MW[i]); target = v / MW[i]; exact = False
+                elif kind == 'mol-item':
+                    view.mol[i] = v
+                    put(i, v); target = v
+                elif kind == 'mol-row':
+                    view.mol[:] = st['row']
+                    put_row(st['row'])
+                elif kind == 'imol-row':
+                    s.imol[p] = st['row']
+                    put_row(st['row'])
+                elif kind == 'imol-pair':
+                    key = (ID, IDS[j])
+                    if on_view: view.imol[key] = [v, st['v2']]
+                    else: s.imol[p, key] = [v, st['v2']]
+                    put(i, v); put(j, st['v2']); target = v
+                elif kind == 'empty':
+                    if on_view: view.empty(); put_row([0.0] * n)
+                    else: s.empty(); exp = {}
+                elif kind == 'scale':
+                    f = st['f']; exact = False
+                    if on_view:
+                        view.scale(f)
+                        for idx in range(n): put(idx, before['flows'].get((p, cas[idx]), 0.0) * f)
+                    else:
+                        s.scale(f)
+                        exp = {q: x * f for q, x in before['flows'].items() if x * f}
+                elif kind == 'copy_like':
+                    fr = mk_fresh(st['fresh'], phase=p)
+                    view.copy_like(fr)
+                    put_row(st['fresh']['flows']); expT = st['fresh']['T']; expP = st['fresh']['P']
+                elif kind == 'mix_from':
+                    # the streams handed to MultiStream.from_streams keep an unlocked phase until the first rebinding: mixing an inlet of another phase into one of them relabels
+                    # the sub-stream itself, which is a mixing rule (C01) and no representation change; such a view gets an inlet in its own phase
+                    locked = isinstance(view.imol._phase, tmo._phase.LockedPhase)
+                    if not locked: rec.hit('v2:unlocked-view-mix')
+                    fr = mk_fresh(st['fresh'], phase=None if locked else p)
+                    view.mix_from([fr], energy_balance=False)
+                    put_row(st['fresh']['flows'])
+                after = snap(s)
+                same = (lambda a, b: a == b) if exact else ledger_close
+                rec.check(same(after['flows'], exp), cl, f'{kind}/parent-ledger', f'step {k}: {side} write {kind} at ({p},{ID}): the parent holds {after["flows"]} expected {exp}')
+                vr = view_row(view, cas)
+                rec.check(same(vr, parent_row(exp, p)), cl, f'{kind}/view-row', f'step {k}: {side} write {kind} at ({p},{ID}): the view reads {vr} expected {parent_row(exp, p)}')
+                rec.check(after['T'] == expT and after['P'] == expP and view.T == expT and view.P == expP, cl, f'{kind}/TP', f'step {k}: {side} write {kind}: T/P {after["T"]}, {after["P"]} (view {view.T}, {view.P}) expected {expT}, {expP}')
+                if target is not None:
+                    rd = st['read']
+                    if on_view:    # read on the parent
+                        got = {'imol': lambda: s.imol[p, ID], 'imass': lambda: s.imass[p, ID] / MW[i], 'get_flow': lambda: s.get_flow('kmol/hr', (p, ID)), 'mol': lambda: s.imol[p][i]}[rd]()
+                    else:          # read on the view
+                        got = {'imol': lambda: view.imol[ID], 'imass': lambda: view.imass[ID] / MW[i], 'get_flow': lambda: view.get_flow('kmol/hr', ID), 'mol': lambda: view.mol[i]}[rd]()
+                    ok = got == target if (exact and rd in ('imol', 'mol')) else abs(got - target) <= 1e-12 * max(abs(got), abs(target))
+                    rec.check(ok, cl, f'{kind}/visible-on-other-side/read-{rd}', f'step {k}: {side} write {kind} of {target} at ({p},{ID}) reads {got} through {rd} on the other side')
+                eff += 1
+            elif t == 'hold':
+                if zero: continue
+                if not multi:
+                    vs = list(s)
+                    rec.check(len(s) == 1 and len(vs) == 1 and phase_ledger(vs[0]) == before['flows'], 'iteration', 'single', f'step {k}: iterating a single-phase stream gave {len(vs)} items, len {len(s)}')
+                    rec.hit('v2:iter-single')
+                    continue
+                if st['how'] == 'getitem':
+                    p = s.phases[st['k'] % len(s.phases)]
+                    held[p] = s[p]; crossed[p] = 'none'
+                else:
+                    vs = [x for x in s]
+                    rec.check(len(s) == len(s.phases) == len(vs) and [x.phase for x in vs] == list(s.phases), 'iteration', 'multi/labels', f'step {k}: for v in s gave labels {[x.phase for x in vs]}, len(s)={len(s)}, phases {s.phases}')
+                    rec.check(all(view_row(x, cas) == parent_row(before['flows'], x.phase) for x in vs), 'iteration', 'multi/content', f'step {k}: the streams yielded by iteration do not read the rows of the parent')
+                    for x in vs: held[x.phase] = x; crossed[x.phase] = 'none'
+                    rec.hit('v2:iter')
+            elif t == 'held-probe':
+                if not multi or not held: continue
+                for p in sorted(held):
+                    tag = crossed.get(p, 'none')
+                    probe_view(rec, s, held[p], p, 'held-view', 'after-' + tag, st['k'] % n, cas, k)
+                    rec.hit('v2:held-probe'); rec.hit('v2:held-across/' + tag)
+                a2 = snap(s)
+                rec.check(a2 == before, 'held-view', 'probe-neutral', f'step {k}: probing the held views changed the stream: {a2} was {before}')
+            elif t == 'TP':
+                how = st['how']
+                if not multi or zero: how = 'parent-' + how.split('-')[1]
+                if how.startswith('held') and not held: how = 'view-' + how.split('-')[1]
+                if how.startswith('parent'): obj = s
+                elif how.startswith('held'): labs = sorted(held); obj = held[labs[st['k'] % len(labs)]]
+                else: obj = s[s.phases[st['k'] % len(s.phases)]]
+                rec.hit('v2:TP/' + how)
+                m = how.split('-')[1]
+                if m == 'attr': obj.T = st['T']; obj.P = st['P']
+                elif m == 'tc': obj.thermal_condition.T = st['T']; obj.thermal_condition.P = st['P']
+                else:
+                    o = tmo.Stream(None, phase='g', T=st['T'], P=st['P'], thermo=th)
+                    obj.copy_thermal_condition(o)
+                    o.T = 111.; o.P = 2222.     # the source must stay independent
+                sides = [('parent', s)]
+                if multi: sides += [(f'view {p!r}', s[p]) for p in s.phases] + [(f'held view {p!r}', held[p]) for p in sorted(held)]
+                bad = [nm for nm, x in sides if not (x.T == st['T'] and x.P == st['P'])]
+                rec.check(not bad, 'view-TP', f'{how}/shared', f'step {k}: T/P written by {how} not seen by {bad}')
+                rec.check(snap(s)['flows'] == before['flows'], 'view-TP', 'flows', f'step {k}: changing T/P changed flows')
+            elif t == 'save':
+                saved = (s.get_data(), snap(s))
+            elif t == 'restore':
+                if saved is None: continue
+                s.set_data(saved[0])
+                after = snap(s)
+                want = saved[1]
+                ok = after['flows'] == want['flows'] and after['T'] == want['T'] and after['P'] == want['P'] and set(after['phases']) == set(want['phases'])
+                rec.check(ok, 'restore', f'{"multi" if len(want["phases"]) > 1 else "single"}-saved', f'step {k}: set_data(get_data()) gave {after} but saved state was {want}')
+                after_conversion('restore', k, st)
+                eff += 1
+            elif t == 'restore-other':
+                if saved is None: continue
+                d = st['other']
+                if d['multi']:
+                    o = tmo.MultiStream(None, phases=tuple(d['phases']), T=d['T'], P=d['P'], thermo=th)
+                    for i, v in zip(IDS, d['flows']):
+                        if v: o.imol[d['phases'][0], i] = v
+                else: o = mk_fresh(d)
+                o.set_data(saved[0])
+                after = snap(o)
+                want = saved[1]
+                ok = after['flows'] == want['flows'] and after['T'] == want['T'] and after['P'] == want['P'] and set(after['phases']) == set(want['phases'])
+                rec.check(ok, 'restore', f'onto-other-{"multi" if d["multi"] else "single"}-stream/{"multi" if len(want["phases"]) > 1 else "single"}-saved', f'step {k}: other.set_data(saved) gave {after} but saved state was {want}')
+                o.empty(); o.T = 222.
+                rec.check(snap(s) == before, 'restore', 'onto-other/independent', f'step {k}: restoring onto another stream and emptying it changed this stream')
+                rec.hit('v2:restore-other')
+            elif t == 'from_data':
+                if st['src'] == 'saved' and saved is not None: data, want = saved
+                else: data, want = s.get_data(), before
+                cls = tmo.Stream if st['cls'] == 'Stream' else tmo.MultiStream
+                o = cls.from_data(data, thermo=th)
+                after = snap(o)
+                ok = after['flows'] == want['flows'] and after['T'] == want['T'] and after['P'] == want['P'] and set(after['phases']) == set(want['phases'])
+                rec.check(ok, 'restore', f'{st["cls"]}.from_data/{"multi" if len(want["phases"]) > 1 else "single"}-saved', f'step {k}: {st["cls"]}.from_data(saved) gave {after} but saved state was {want}')
+                o.empty(); o.T = 222.
+                rec.check(snap(s) == before, 'restore', 'from_data/independent', f'step {k}: emptying the stream made by from_data changed this stream')
+                rec.hit('v2:from_data')
+            elif t == 'temporary':
+                kw = {}
+                if st['T'] is not None: kw['T'] = st['T']
+                if st['P'] is not None: kw['P'] = st['P']
+                if st['flow'] == 'row' or (st['flow'] == 'rows' and not multi): kw['flow'] = list(st['row'])
+                elif st['flow'] == 'rows' and not zero: kw['flow'] = [[x * (q + 1) for x in st['row']] for q in range(len(s.phases))]
+                inner = st['inner']
+                if zero and inner == 'collapse': inner = 'none'
+                rec.hit('v2:temporary'); rec.hit('v2:temporary/' + inner)
+                try:
+                    with s.temporary(**kw):
+                        if inner == 'conv':
+                            tg = set(s.phases) | set(st['extra'])
+                            s.phases = tuple(p for p in PH if p in tg)
+                            if isinstance(s, tmo.MultiStream): s.imol[st['extra'][0], IDS[st['i']]] = st['v']
+                            else: s.imol[IDS[st['i']]] = st['v']
+                        elif inner == 'collapse':
+                            s.empty(); s.phase = st['extra'][0]
+                        elif inner == 'empty': s.empty()
+                        elif inner == 'raise': raise _Probe()
+                except _Probe:
+                    pass
+                after = snap(s)
+                ok = after['flows'] == before['flows'] and after['T'] == before['T'] and after['P'] == before['P'] and set(after['phases']) == set(before['phases'])
+                rec.check(ok, 'temporary', f'restored/{mode(multi)}/inner-{inner}', f'step {k}: after with s.temporary({sorted(kw)}) [{inner}] the stream is {after} but was {before}')
+                if inner == 'collapse': held.clear(); crossed.clear()
+                after_conversion('temporary', k, st)
+                eff += 1
+            elif t == 'temp-phase':
+                if multi: continue
+                cur = s.phase
+                p = (cur if st['r'] < 0.3 else swap(cur)) if ne else PH[st['k'] % 5]
+                rec.hit('v2:temp-phase')
+                try:
+                    with s.temporary_phase(p):
+                        inside = snap(s)
+                except Exception as e:
+                    rec.exception('temporary_phase', e, what=f'step {k}: with s.temporary_phase({p!r}) on Stream{before["phases"]} raised {type(e).__name__}: {str(e)[:150]}')
+                    if snap(s) != before: return
+                    continue
+                after = snap(s)
+                exp = {(p, c): v for (q, c), v in before['flows'].items()}
+                rec.check(inside['flows'] == exp and inside['phases'] == (p,) and inside['T'] == before['T'] and inside['P'] == before['P'], 'temporary_phase', 'inside', f'step {k}: inside temporary_phase({p!r}) the stream is {inside}, expected flows {exp}')
+                rec.check(after == before, 'temporary_phase', 'restored', f'step {k}: after temporary_phase({p!r}) the stream is {after} but was {before}')
+            elif t == 'empty-row':
+                if not multi or zero: continue
+                p = s.phases[st['k'] % len(s.phases)]
+                s.imol[p] = 0.
+                exp = {q: x for q, x in before['flows'].items() if q[0] != p}
+                rec.check(snap(s)['flows'] == exp, 'parent-write', 'row-zero/parent-ledger', f'step {k}: s.imol[{p!r}] = 0 left {snap(s)["flows"]} expected {exp}')
+            elif t == 'empty-all':
+                s.empty()
+                after = snap(s)
+                rec.check(after['flows'] == {} and after['phases'] == before['phases'] and after['T'] == before['T'] and after['P'] == before['P'], 'parent-write', f'empty/{mode(multi)}', f'step {k}: s.empty() gave {after} from {before}')
+                if multi:
+                    for p in sorted(held): rec.check(view_row(held[p], cas) == {}, 'held-write', 'parent-empty/view-row', f'step {k}: after s.empty() the held view {p!r} still reads {view_row(held[p], cas)}')
+            elif t == 'getitem-single':
+                if multi: continue
+                cur = s.phase
+                lab = cur if st['r'] < 0.5 else swap(cur)
+                x = s[lab]
+                ID = IDS[st['k'] % n]
+                old = s.imol[ID]; w = 7.5 if old != 7.5 else 8.5
+                x.imol[ID] = w
+                rec.check(s.imol[ID] == w and x.T == s.T and x.P == s.P, 'iteration', 'single/getitem-own-label', f'step {k}: Stream[{lab!r}] on a stream in phase {cur!r} is not a live view of it')
+                s.imol[ID] = old
+                rec.check(snap(s) == before, 'iteration', 'single/getitem-neutral', f'step {k}: probing Stream[{lab!r}] changed the stream')
+                other = next(q for q in PH if q.lower() != cur.lower())
+                try:
+                    s[other]
+                except Exception:
+                    rec.refuse('Stream[label of another phase group] raises')
+                rec.hit('v2:getitem-single')
+        except Exception as e:
+            cl = 'zero-phases' if zero and t not in ('from_data', 'restore-other') else clause     # a MultiStream left with no phase at all by phases=() on an empty stream
+            rec.exception(cl, e, what=f'step {k} {st} on {before["cls"]}{before["phases"]} (non-empty {sorted(ne)}) raised {type(e).__name__}: {str(e)[:150]}')
+            try:
+                after = snap(s)
+                rec.check(sum(after['flows'].values()) == sum(before['flows'].values()), 'after-exception', t, f'step {k}: after the exception the stream holds other material')
+            except Exception as e2:
+                rec.violation(f'C12/after-exception/{t}/corrupt', f'step {k}: after {type(e).__name__} the stream is unusable: {type(e2).__name__}: {str(e2)[:120]}')
+            return
+        e = stream_invariant(s)
+        if e: rec.check(False, 'invariant', t, f'step {k}: sparse invariant {e}'); return
+    if multi_seen and eff >= 3: rec.mark_nontrivial(case_hash(case))
+
+
+def mode(multi):
+    return 'multi' if multi else 'single'
+
+
 def replay(case, rec):
     run_case(case, rec)
 
@@ -210,3 +761,12 @@ def run(rec, rng, tier, shard, nshards):
         except Exception as e:
             rec.exception('harness', e, what=f'harness error: {type(e).__name__}: {e}')
         if i % 301 == 0: rec.sample({'start': case['start'], 'steps': case['steps'][:6], 'n_steps': len(case['steps'])})
+    # second case stream (extended vocabulary); drawn after the first so that the first stays byte-identical
+    n2 = 1500 if tier == 'quick' else 15000
+    for i in range(n2):
+        case = gen_case2(rng)
+        try:
+            run_case(case, rec)
+        except Exception as e:
+            rec.exception('harness', e, what=f'harness error (v2): {type(e).__name__}: {e}')
+        if i % 501 == 0: rec.sample({'v': 2, 'start': case['start'], 'steps': case['steps'][:6], 'n_steps': len(case['steps'])})
